@@ -155,6 +155,9 @@ v("C07-twin-memo-get", "C07", "silent", "execution/planning/planner.py", "      
 
 v("C05-dist-greater", "C05", "fire", "task_types/run.py", "                if selected_version is None or dist < closest_distance:", "                if selected_version is None or dist > closest_distance:", "SEL1")
 
+v("C05-swap-row-columns", "C05", "fire", "execution/version_index.py", "            timestamp=row[0],\n            commit_hash=row[1],", "            timestamp=row[1],\n            commit_hash=row[0],", "VI2")
+v("C05-wrong-slice", "C05", "fire", "execution/version_index.py", "            results.append(self._version_from_row(row[1:]))", "            results.append(self._version_from_row(row))", "VI2")
+
 
 def _run_variant(var) -> Tuple[str, str, str]:
     id_, prop, kind, rel, old, new, rule = var
